@@ -504,7 +504,7 @@ Definition mom_read (b : list N) : momres :=
 
 (** ---------- the sky-map reader, up to the pixel values (src/deser/fits/skymap.rs from_fits_skymap_internal) ----------
     ten mandatory cards (TTYPE1: any string; TFORM1 in D, 1D, E, 1E, 1024E), the keyword loop, PIXTYPE
-    present, depth = MOCORDER or log2 NSIDE (a power of two in 1..2^29), depth <= 29,
+    present, INDXSCHM = IMPLICIT, depth = MOCORDER or log2 NSIDE (a power of two in 1..2^29), depth <= 29,
     NAXIS2 x pack = 12 x 4^depth, NAXIS1 >= first column and NAXIS1 - first column <= 65535,
     ORDERING NESTED or RING; then NAXIS2 rows of NAXIS1 bytes must be readable.  The pixel values (floating
     point) and what the selection makes of them are outside this model: the verdict is Ok or the error. *)
@@ -546,6 +546,9 @@ Definition sky_read (b : list N) : skyres :=
       | Datatypes.inl e => SkyErr e
       | Datatypes.inr (m, data) =>
         match kw_get m 11 with None => SkyErr FMissingKeyword | Some _ =>
+        (* check_index_schema(IMPLICIT) *)
+        match kw_get m 15 with
+        | Some (KEnum 0) =>
         let depth_r : sum ferr N :=
           match depth_at m 10 with
           | Some d => Datatypes.inr d
@@ -569,6 +572,9 @@ Definition sky_read (b : list N) : skyres :=
                     else SkyErr FUnexpectedValue
                   | Some _ => SkyErr FUnexpectedValue
                   end
+        end
+        | Some (KEnum _) => SkyErr FUnexpectedValue
+        | _ => SkyErr FMissingKeyword
         end end
       end end end end end end end end end end end end end end end end
     end
